@@ -41,6 +41,8 @@ func (e *Engine) StructuralObligations(want map[string]bool) ([]*Obligation, err
 				o.StructOK, o.StructMsg = e.checkStoresBeforeCalls(c.Fn, sc.Args)
 			case "no_global_stores":
 				o.StructOK, o.StructMsg = e.checkNoGlobalStores(c.Fn, sc.Args)
+			case "locks_released":
+				o.StructOK, o.StructMsg = checkLocksReleased(c.Fn)
 			case "chan_buffered":
 				o.StructOK, o.StructMsg = checkChanBuffered(c.Fn, sc.Args)
 			case "sends_selectable":
@@ -781,4 +783,89 @@ func checkSendsSelectable(fn *ssa.Function, args []string) (bool, string) {
 		return false, fmt.Sprintf("no send on field %s found in %s (contract no longer binds)", args[0], fn.Name())
 	}
 	return true, ""
+}
+
+// checkLocksReleased: `locks_released` -- on every path to a return, each Lock/RLock taken in this function has been
+// undone by the matching Unlock/RUnlock (directly or by a defer registered on that path). A may-hold analysis: a
+// lock possibly still held at a return is a violation (the next RLock/Lock on it blocks forever).
+func checkLocksReleased(fn *ssa.Function) (bool, string) {
+	type st struct{ held, deferred map[string]bool }
+	clone := func(a st) st {
+		n := st{map[string]bool{}, map[string]bool{}}
+		for k := range a.held {
+			n.held[k] = true
+		}
+		for k := range a.deferred {
+			n.deferred[k] = true
+		}
+		return n
+	}
+	key := func(call *ssa.CallCommon) (string, string) {
+		name := calleeName(call)
+		if name != "Lock" && name != "RLock" && name != "Unlock" && name != "RUnlock" {
+			return "", ""
+		}
+		if len(call.Args) == 0 {
+			return "", ""
+		}
+		k := valuePath(call.Args[0])
+		if fa, ok := call.Args[0].(*ssa.FieldAddr); ok {
+			k = valuePath(fa.X) + "." + fieldNameOf(fa)
+		}
+		return name, k
+	}
+	in := map[*ssa.BasicBlock]st{fn.Blocks[0]: {map[string]bool{}, map[string]bool{}}}
+	work := []*ssa.BasicBlock{fn.Blocks[0]}
+	msg := ""
+	for steps := 0; len(work) > 0 && steps < 10000; steps++ {
+		b := work[0]
+		work = work[1:]
+		cur := clone(in[b])
+		for _, instr := range b.Instrs {
+			switch instr := instr.(type) {
+			case *ssa.Call:
+				if name, k := key(&instr.Call); name != "" {
+					if name == "Lock" || name == "RLock" {
+						cur.held[k] = true
+					} else {
+						delete(cur.held, k)
+					}
+				}
+			case *ssa.Defer:
+				if name, k := key(&instr.Call); name == "Unlock" || name == "RUnlock" {
+					cur.deferred[k] = true
+				}
+			case *ssa.Return:
+				for k := range cur.held {
+					if !cur.deferred[k] && msg == "" {
+						msg = fmt.Sprintf("lock %s may still be held at the return at %s", k, fn.Prog.Fset.Position(instr.Pos()))
+					}
+				}
+			}
+		}
+		for _, succ := range b.Succs {
+			old, seen := in[succ]
+			merged := clone(cur)
+			changed := !seen
+			if seen {
+				for k := range old.held {
+					merged.held[k] = true
+				}
+				// a defer counts only if registered on every path: intersect
+				for k := range merged.deferred {
+					if !old.deferred[k] {
+						delete(merged.deferred, k)
+					}
+				}
+				if len(merged.held) != len(old.held) || len(merged.deferred) != len(old.deferred) {
+					changed = true
+				}
+			}
+			if changed {
+				in[succ] = merged
+				work = append(work, succ)
+			}
+		}
+	}
+	return msg == "", msg
 }
